@@ -25,6 +25,9 @@
 //!  * discriminants used by `question_mark`, `for` (src/mir/lower.rs) and
 //!    `ffi::list_get` (src/value/list.rs) with its payload offset expression.
 //!
+//!  * the name / arity tests and the recursive checks of the four generic arms of
+//!    `check_roto_type`, the name tests of its `Leaf` and `Val` arms (src/codegen/check.rs).
+//!
 //! Everything outside the recognised shapes is an extraction failure.
 
 use super::{Gen, Target};
@@ -388,6 +391,261 @@ fn assoc_type(i: &syn::ItemImpl, name: &str) -> Option<String> {
 
 // ------------------------------------------------------------ the target
 
+/// `fn resolve()` of `impl<P…> Value for X<P…>`: `let a = P::resolve().type_id; … let desc =
+/// TypeDescription::X(a, …); TypeRegistry::store::<Self>(desc)` → (head, constructor, positions of
+/// the type parameters the components describe).
+fn resolve_description(i: &syn::ItemImpl, ty: &str, head: &str) -> R {
+    let what = format!("impl Value for {ty}: resolve");
+    let params: Vec<String> = ty
+        .split_once('<')
+        .and_then(|(_, r)| r.strip_suffix('>'))
+        .ok_or(format!("{what}: type parameters"))?
+        .split(',')
+        .map(|x| x.to_string())
+        .collect();
+    let f = i
+        .items
+        .iter()
+        .find_map(|it| match it {
+            syn::ImplItem::Fn(f) if f.sig.ident == "resolve" => Some(f),
+            _ => None,
+        })
+        .ok_or(format!("{what}: not found"))?;
+    let mut bound: Vec<(String, usize)> = vec![];
+    let mut ctor = None;
+    let stmts: Vec<&Stmt> = f.block.stmts.iter().filter(|s| !matches!(s, Stmt::Local(l) if is_hook_attr(&l.attrs))).collect();
+    let (last, front) = stmts.split_last().ok_or(format!("{what}: empty"))?;
+    for st in front {
+        let Stmt::Local(l) = st else { return Err(format!("{what}: `{}`", toks(*st))) };
+        let Pat::Ident(pi) = &l.pat else { return Err(format!("{what}: `{}`", toks(&l.pat))) };
+        let init = toks(&l.init.as_ref().ok_or(format!("{what}: no initialiser"))?.expr);
+        if let Some(pname) = init.strip_suffix("::resolve().type_id") {
+            let k = params.iter().position(|x| x == pname).ok_or(format!("{what}: `{pname}` is not a type parameter"))?;
+            bound.push((pi.ident.to_string(), k));
+        } else if let Some(rest) = init.strip_prefix("TypeDescription::") {
+            let (c, args) = rest.split_once('(').and_then(|(c, a)| a.strip_suffix(')').map(|a| (c, a))).ok_or(format!("{what}: `{init}`"))?;
+            let mut pos_list = vec![];
+            for a in args.split(',').filter(|a| !a.is_empty()) {
+                let k = bound.iter().find(|(n, _)| n == a).ok_or(format!("{what}: `{a}` is not the TypeId of a type parameter"))?.1;
+                pos_list.push(k.to_string());
+            }
+            if pi.ident != "desc" {
+                return Err(format!("{what}: `{}`", toks(*st)));
+            }
+            ctor = Some((c.to_string(), pos_list));
+        } else {
+            return Err(format!("{what}: `{}`", toks(*st)));
+        }
+    }
+    if toks(*last) != "TypeRegistry::store::<Self>(desc)" {
+        return Err(format!("{what}: `{}` is not `TypeRegistry::store::<Self>(desc)`", toks(*last)));
+    }
+    let (c, pos_list) = ctor.ok_or(format!("{what}: no TypeDescription"))?;
+    let c = match c.as_str() {
+        "Option" => ".option",
+        "Result" => ".result",
+        "Verdict" => ".verdict",
+        "List" => ".list",
+        other => return Err(format!("{what}: TypeDescription::{other}")),
+    };
+    Ok(format!("({head}, {c}, {})", lean_list(&pos_list)))
+}
+
+// ------------------------------------------------------ check_roto_type (the gate)
+
+fn is_hook_attr(attrs: &[syn::Attribute]) -> bool {
+    attrs.iter().any(|a| a.path().is_ident("cfg") && toks(a).contains("verif-hooks"))
+}
+
+/// `{ return Err(error_message); }` (the refusal every failed test of an arm takes)
+fn refuses(b: &syn::Block) -> bool {
+    toks(b) == "{returnErr(error_message);}"
+}
+
+/// `check_roto_type(type_info, R, A)` → (R, A)
+fn gate_rec_call(e: &Expr) -> Result<(String, String), String> {
+    let Expr::Call(c) = e else { return Err(format!("check_roto_type arm: expected a recursive call, found `{}`", toks(e))) };
+    if toks(&c.func) != "check_roto_type" || c.args.len() != 3 || toks(&c.args[0]) != "type_info" {
+        return Err(format!("check_roto_type arm: unexpected call `{}`", toks(e)));
+    }
+    Ok((toks(&c.args[1]), toks(&c.args[2])))
+}
+
+/// The four arms of `check_roto_type` for the generic built-in types, each as data: the
+/// `TypeDescription` constructor, what of the Roto type's resolved name is compared (scope
+/// and identifier, or the identifier alone), the identifier, the number of type arguments
+/// demanded, and which Rust component is checked against which Roto argument. Plus the
+/// name tests of the `Leaf` and `Val` arms. Anything else in an arm is an extraction failure.
+fn gate_arms(ck: &syn::File, types: &syn::File) -> R {
+    let f = find::func(ck, "check_roto_type", None)?;
+    let ms = find::matches_on(&f.block, "rust_type.description");
+    let [m] = &ms[..] else { return Err(format!("check_roto_type: expected one `match rust_type.description`, found {}", ms.len())) };
+    // the Roto type the arms look at is the resolved one
+    in_order(&toks(&f.block), &["let mut roto_type=type_info.resolve(roto_type);", "match rust_type.description{"], "check_roto_type")?;
+    let head_of = |id: &str| -> R {
+        Ok(match id {
+            "Verdict" => ".verdict",
+            "Result" => ".result",
+            "Option" => ".option",
+            "List" => ".list",
+            other => return Err(format!("check_roto_type: `{other}` is not one of the generic built-in types")),
+        }
+        .to_string())
+    };
+    let mut arms_out = vec![];
+    for variant in ["Verdict", "Result", "Option", "List"] {
+        let what = format!("check_roto_type arm TypeDescription::{variant}");
+        let arm = find::arm_for(m, variant)?;
+        if arm.guard.is_some() {
+            return Err(format!("{what}: guarded"));
+        }
+        let Pat::TupleStruct(ts) = &arm.pat else { return Err(format!("{what}: pattern")) };
+        let mut rust_parts = vec![];
+        for e in &ts.elems {
+            let Pat::Ident(pi) = e else { return Err(format!("{what}: pattern element `{}`", toks(e))) };
+            rust_parts.push(pi.ident.to_string());
+        }
+        let Expr::Block(body) = &*arm.body else { return Err(format!("{what}: body is not a block")) };
+        let stmts: Vec<&Stmt> = body
+            .block
+            .stmts
+            .iter()
+            .filter(|s| match s {
+                Stmt::Local(l) => !is_hook_attr(&l.attrs),
+                Stmt::Macro(mc) => !is_hook_attr(&mc.attrs),
+                _ => true,
+            })
+            .collect();
+        if stmts.len() < 4 {
+            return Err(format!("{what}: expected name test, arity test and recursive checks, found {} statements", stmts.len()));
+        }
+        // 1. `let Type::Name(tn) = &roto_type else { refuse };`
+        let Stmt::Local(l0) = stmts[0] else { return Err(format!("{what}: first statement")) };
+        let Pat::TupleStruct(p0) = &l0.pat else { return Err(format!("{what}: `{}`", toks(&l0.pat))) };
+        let (Some(Pat::Ident(tn)), 1, "Type::Name") = (p0.elems.first(), p0.elems.len(), toks(&p0.path).as_str()) else {
+            return Err(format!("{what}: `{}` is not `Type::Name(_)`", toks(&l0.pat)));
+        };
+        let tn = tn.ident.to_string();
+        let init0 = l0.init.as_ref().ok_or(format!("{what}: no initialiser"))?;
+        let refuses0 = init0.diverge.as_ref().is_some_and(|(_, e)| matches!(&**e, Expr::Block(b) if refuses(&b.block)));
+        if toks(&init0.expr) != "&roto_type" || !refuses0 {
+            return Err(format!("{what}: `{}`", toks(l0)));
+        }
+        // 2. the name test: the whole resolved name (scope and identifier) or the identifier alone
+        let Stmt::Expr(Expr::If(i1), _) = stmts[1] else { return Err(format!("{what}: second statement is not the name test")) };
+        if i1.else_branch.is_some() || !refuses(&i1.then_branch) {
+            return Err(format!("{what}: the name test does not refuse"));
+        }
+        let Expr::Binary(b1) = &*i1.cond else { return Err(format!("{what}: name test `{}`", toks(&i1.cond))) };
+        if !matches!(b1.op, syn::BinOp::Ne(_)) {
+            return Err(format!("{what}: name test `{}`", toks(&i1.cond)));
+        }
+        let mut rhs = &*b1.right;
+        while let Expr::Paren(p) = rhs {
+            rhs = &p.expr;
+        }
+        let lhs = toks(&b1.left);
+        let lit_of = |e: &Expr| -> Option<String> {
+            let t = toks(e);
+            let t = t.strip_suffix(".into()").unwrap_or(&t).to_string();
+            t.strip_prefix('"').and_then(|x| x.strip_suffix('"')).map(|x| x.to_string())
+        };
+        let (scope, ident) = if lhs == format!("{tn}.name") {
+            let Expr::Struct(st) = rhs else { return Err(format!("{what}: `{}` is not a ResolvedName", toks(rhs))) };
+            if toks(&st.path) != "ResolvedName" || st.rest.is_some() || st.fields.len() != 2 {
+                return Err(format!("{what}: `{}`", toks(rhs)));
+            }
+            let mut scope = None;
+            let mut ident = None;
+            for fv in &st.fields {
+                match toks(&fv.member).as_str() {
+                    "scope" if toks(&fv.expr) == "ScopeRef::GLOBAL" => scope = Some(".global"),
+                    "ident" => ident = lit_of(&fv.expr),
+                    _ => return Err(format!("{what}: field `{}` of the name compared", toks(fv))),
+                }
+            }
+            (scope.ok_or(format!("{what}: scope compared"))?, ident.ok_or(format!("{what}: identifier compared"))?)
+        } else if lhs == format!("{tn}.name.ident") || lhs == format!("{tn}.name.ident.as_str()") {
+            (".anyScope", lit_of(rhs).ok_or(format!("{what}: identifier compared `{}`", toks(rhs)))?)
+        } else {
+            return Err(format!("{what}: name test `{}`", toks(&i1.cond)));
+        };
+        // 3. `let [a, b] = &tn.arguments[..] else { refuse };`
+        let Stmt::Local(l2) = stmts[2] else { return Err(format!("{what}: third statement")) };
+        let Pat::Slice(ps) = &l2.pat else { return Err(format!("{what}: `{}`", toks(&l2.pat))) };
+        let mut roto_parts = vec![];
+        for e in &ps.elems {
+            let Pat::Ident(pi) = e else { return Err(format!("{what}: slice element `{}`", toks(e))) };
+            roto_parts.push(pi.ident.to_string());
+        }
+        let init2 = l2.init.as_ref().ok_or(format!("{what}: no initialiser"))?;
+        let refuses2 = init2.diverge.as_ref().is_some_and(|(_, e)| matches!(&**e, Expr::Block(b) if refuses(&b.block)));
+        if toks(&init2.expr) != format!("&{tn}.arguments[..]") || !refuses2 {
+            return Err(format!("{what}: `{}`", toks(l2)));
+        }
+        // 4. the recursive checks, every one propagating a refusal
+        let mut pairs = vec![];
+        let rest = &stmts[3..];
+        for (k, s) in rest.iter().enumerate() {
+            let last = k + 1 == rest.len();
+            let call = match s {
+                Stmt::Expr(Expr::Try(t), Some(_)) => Some(gate_rec_call(&t.expr)?),
+                Stmt::Expr(e, None) if last && toks(e) == "Ok(())" => None,
+                Stmt::Expr(e, None) if last => Some(gate_rec_call(e)?),
+                other => return Err(format!("{what}: statement `{}`", toks(*other))),
+            };
+            if let Some((r, a)) = call {
+                let ri = rust_parts.iter().position(|x| *x == r).ok_or(format!("{what}: `{r}` is not a component of the Rust type"))?;
+                let ai = roto_parts.iter().position(|x| *x == a).ok_or(format!("{what}: `{a}` is not an argument of the Roto type"))?;
+                pairs.push(format!("({ri}, {ai})"));
+            }
+        }
+        arms_out.push(format!(
+            "  ⟨{}, {scope}, {}, {}, {}⟩",
+            head_of(variant)?,
+            head_of(&ident)?,
+            roto_parts.len(),
+            lean_list(&pairs)
+        ));
+    }
+    // Leaf: compared with `Type::named(name, [])`, which is a name in the global scope
+    let leaf = find::arm_for(m, "Leaf")?;
+    in_order_pat(
+        &text(&leaf.body),
+        &["let __P_exp = Type::named(expected_name, Vec::new());", "if __P_exp == roto_type { Ok(()) } else { Err(error_message) }"],
+        "check_roto_type arm Leaf",
+    )?;
+    let named = find::func(types, "named", Some("Type"))?;
+    in_order(
+        &toks(&named.block),
+        &["Type::Name(TypeName{name:ResolvedName{scope:ScopeRef::GLOBAL,ident:ident.into(),},arguments,})"],
+        "Type::named",
+    )?;
+    // Val: the name must resolve to a registered type with the same TypeId
+    let val = find::arm_for(m, "Val")?;
+    in_order_pat(
+        &text(&val.body),
+        &[
+            "let Type::Name(__P_tn) = roto_type else { return Err(error_message); };",
+            "let TypeDefinition::Runtime(_, __P_id) = type_info.resolve_type_name(__P_tn.name) else { return Err(error_message); };",
+            "if rust_type.type_id != __P_id { return Err(error_message); }",
+            "Ok(())",
+        ],
+        "check_roto_type arm Val",
+    )?;
+    Ok(format!(
+        "\n/-! ### src/codegen/check.rs (`check_roto_type`: the gate in front of `RotoFunc::invoke`) -/\n\
+         /-- per generic built-in type: `TypeDescription` constructor, what of the resolved name is compared, the identifier, \
+         the number of type arguments, (Rust component, Roto argument) pairs checked recursively -/\n\
+         def gateArms : List GateArm := [\n{}]\n\
+         /-- the `Leaf` arm compares with `Type::named(..)`: a name in the global scope, no arguments -/\n\
+         def gateLeafScope : ScopeTest := .global\n\
+         /-- the `Val` arm demands a name that resolves to `TypeDefinition::Runtime` with the same `TypeId` -/\n\
+         def gateValByTypeId : Bool := true\n",
+        arms_out.join(",\n")
+    ))
+}
+
 fn boundary(repo: &Path) -> R {
     let mut o = String::new();
     o.push_str(
@@ -527,6 +785,7 @@ fn boundary(repo: &Path) -> R {
     let vm = find::parse(repo, "src/value/mod.rs")?;
     o.push_str("\n/-! ### src/value/mod.rs -/\n");
     let mut kinds = vec![];
+    let mut descriptions = vec![];
     let mut simple = vec![];
     let mut simple_kind = None;
     for item in &vm.items {
@@ -551,6 +810,11 @@ fn boundary(repo: &Path) -> R {
                     return Err(format!("impl Value for {ty}: unexpected Transformed = {tf}"));
                 }
                 kinds.push(format!("({head}, {})", as_param_kind(&ty, &ap)?));
+                // how the registry describes the type to the gate: `TypeDescription::X(…)` over the
+                // type parameters, in which order
+                if matches!(head.as_str(), ".Option" | ".Result" | ".Verdict" | ".List") {
+                    descriptions.push(resolve_description(i, &ty, &head)?);
+                }
             }
             syn::Item::Macro(m) => {
                 let name = m.mac.path.to_token_stream().to_string();
@@ -579,6 +843,12 @@ fn boundary(repo: &Path) -> R {
         "/-- `type AsParam` of every `impl Value` (the `simple_value!` types last) -/\ndef asParamKinds : List (RustHead × ParamKind) := {}\ndef simpleValues : List RustHead := {}\n",
         lean_list(&kinds),
         lean_list(&simple)
+    ));
+    o.push_str(&format!(
+        "/-- `Value::resolve` of the generic types: the `TypeDescription` constructor stored for the Rust type and, per \
+         component, the position of the type parameter it describes (`Result<T, E>` is `Result(T, E)`) -/\n\
+         def rustDescriptions : List (RustHead × GateHead × List Nat) := {}\n",
+        lean_list(&descriptions)
     ));
     // Param impls: `*mut T` reads with ptr::read, `as_param` takes the address
     let vms = toks(&vm);
@@ -1029,6 +1299,43 @@ fn boundary(repo: &Path) -> R {
         "def rustWithReturnPointer : List Slot := [.retPtr, .ctx, .params]\ndef rustWithReturnPointerRet : RetSlot := .nothing\ndef rustWithoutReturnPointer : List Slot := [.ctx, .params]\ndef rustWithoutReturnPointerRet : RetSlot := .transformed\ndef funcArities : List Nat := {}\n",
         lean_list(&arities)
     ));
+
+    // the gate in front of `RotoFunc::invoke`: which Roto type a Rust type is let through as
+    o.push_str(&gate_arms(&ck, &types)?);
+    // … and how a whole signature is checked: the number of parameters, every position
+    // against the Rust type at the same position, the return type
+    in_order(
+        &def,
+        &[
+            "fn check_args(type_info:&mut TypeInfo,ty:&[Type])->Result<(),FunctionRetrievalError>{let[$($a),*]=ty else{",
+            "return Err(FunctionRetrievalError::IncorrectNumberOfArguments{",
+            "$(i+=1;check_roto_type_reflect::<$a>(type_info,$a).map_err(|e|FunctionRetrievalError::TypeMismatch(format!(\"argument{i}\"),e))?;)*Ok(())}",
+        ],
+        "func! (check_args)",
+    )?;
+    let refl = find::func(&ck, "check_roto_type_reflect", None)?;
+    in_order(
+        &toks(&refl.block),
+        &["let rust_type=TypeRegistry::resolve::<T>().type_id;", "check_roto_type(type_info,rust_type,roto_type)"],
+        "check_roto_type_reflect",
+    )?;
+    let gf = find::func(&cg, "get_function", None)?;
+    in_order_pat(
+        &text(&gf.block),
+        &[
+            "let Some(__P_sig_S) = &__P_sig_S else { return Err(FunctionRetrievalError::DoesNotExist {",
+            "F::check_args(&mut self.type_info, &__P_sig_S.parameter_types)?;",
+            "check_roto_type_reflect::<F::Return>(&mut self.type_info, &__P_sig_S.return_type,).map_err(",
+            ")?; let __P_ptr = self.inner.0.cranelift_jit.get_finalized_function(",
+            "Ok(TypedFunc { func: __P_ptr,",
+        ],
+        "Module::get_function",
+    )?;
+    o.push_str(
+        "/-- `check_args` demands exactly as many parameters as the Rust function type has and checks position `i` of \
+         the signature against the `i`-th Rust parameter type; `get_function` then checks the return type, all before \
+         the function pointer is handed out -/\ndef gateArgsPositionwise : Bool := true\ndef gateReturnChecked : Bool := true\n",
+    );
 
     // ----------------------------------------------------------- runtime/func.rs
     let rf = find::parse(repo, "src/runtime/func.rs")?;
